@@ -38,6 +38,28 @@ def lost_confirmed(ctx, floors):
     return lost
 
 
+_OWNERS = None
+
+
+def _anchor_owners():
+    """file -> set of property ids that anchor it (properties.jsonl)"""
+    global _OWNERS
+    if _OWNERS is None:
+        import json as _json
+
+        _OWNERS = {}
+        try:
+            with open(os.path.join(os.path.dirname(os.path.dirname(os.path.abspath(__file__))), "properties.jsonl")) as fh:
+                for line in fh:
+                    pr = _json.loads(line)
+                    for a in pr["anchors"]["files"]:
+                        if not a.endswith("/"):
+                            _OWNERS.setdefault(a, set()).add(pr["id"])
+        except (OSError, ValueError, KeyError):
+            pass
+    return _OWNERS
+
+
 def common(ctx):
     """Generic rules applied, in both tiers, to every function the property's own check placed an obligation on."""
     from .rules import r_default_dim_table, r_scalar_dim_bipartite, r_chunk_tail, r_oneshot_iterator, r_fresh_result, r_values_not_rounded, r_dense_into_kron, r_no_npmatrix, r_hermitian_solver_operand, r_roots_rounded, r_scalar_dim_expand, r_subsystem_count
@@ -110,6 +132,31 @@ def common(ctx):
             r_roots_rounded(ctx, g, chain=ch)
             r_fresh_result(ctx, g, chain=ch)
             r_hermitian_solver_operand(ctx, g, chain=ch)
+        # borrowed obligations: a helper in the closure that is anchored by ANOTHER property brings that property's own obligations on
+        # it along (C15 relies on partial_transpose: whatever C03 checks on partial_transpose is checked for C15 too).  Only violated or
+        # unknown-required ones matter for the verdict; all are marked as closure obligations.
+        if not getattr(ctx, "is_sub", False) and not os.environ.get("VERIF_NO_BORROW"):
+            owners = _anchor_owners()
+            closure_files = {g.file for g in ctx.model.callees_closure(list(roots))} - {f.file for f in roots}
+            mine = {a for a in owners if ctx.prop in owners[a]}
+            need = sorted({pid for fl in closure_files for pid in owners.get(fl, ()) if pid != ctx.prop and fl not in mine})
+            for pid in need:
+                sub = Ctx(pid, ctx.model, "quick")
+                sub.is_sub = True
+                try:
+                    importlib.import_module(f"engine.props.{pid}").run(sub)
+                except Exception:  # noqa: BLE001
+                    continue
+                from .report import load_known as _lk
+
+                owner_known = {(k["rule"], k["function"], k["construct"]) for k in _lk().get("findings", []) if k.get("property") == pid and k.get("status") == "known"}
+                for o in sub.obs:
+                    if o.key in owner_known:
+                        continue  # a recorded finding of the owner property: reported there, once
+                    if o.file in closure_files and o.file in owners and pid in owners[o.file] and o.status != "unknown":
+                        if not any(p_.key == o.key for p_ in ctx.obs):
+                            o.chain = list(o.chain or []) + [f"(obligation of {pid} on a helper this property calls)"]
+                            ctx.obs.append(o)
         ctx.closure_keys = {o.key for o in ctx.obs} - before
         ctx.analysed_functions = base
     except (KeyError, AttributeError):
